@@ -34,6 +34,7 @@ fn ep_cfg(r: &mut Rng, prof: SProfile) -> EndpointConfig {
     c.active_timeout_ms = match prof {
         SProfile::Idle => *r.pick(&[8000u64, 12000, 20000, 60000]),
         SProfile::Timeout => *r.pick(&[1000u64, 3000, 5000, 20000, 60000]),
+        SProfile::Flush => 20000,
         _ => *r.pick(&[3000u64, 20000, 20000]),
     };
     c.keepalive = r.chance(2, 3) || prof == SProfile::Idle;
@@ -44,6 +45,10 @@ fn ep_cfg(r: &mut Rng, prof: SProfile) -> EndpointConfig {
         // occasionally incompatible: packet size larger than the other side's typical allocation
         c.max_packet_size = *r.pick(&[500usize, 3000, 2_000_000]);
         c.max_receive_alloc = *r.pick(&[400usize, 3000, 1_000_000]);
+    } else if prof == SProfile::Flush {
+        // always compatible: the scenario is about the end of an established connection
+        c.max_packet_size = *r.pick(&[30_000usize, 100_000]);
+        c.max_receive_alloc = 1_000_000;
     } else {
         c.max_packet_size = *r.pick(&[3000usize, 100_000, 1_000_000]);
         c.max_receive_alloc = *r.pick(&[100_000usize, 1_000_000]).max(&c.max_packet_size);
@@ -67,9 +72,10 @@ pub fn run_sess(tr: &mut Trace, run: u64, seed: u64, prof: SProfile) -> SessStat
         SProfile::Idle => r.range(1, 2) as usize,
         SProfile::Amp => r.range(0, 1) as usize,
         SProfile::Timeout => r.range(1, 2) as usize,
+        SProfile::Flush => r.range(1, 2) as usize,
         _ => r.range(1, 4) as usize,
     };
-    let max_active = *r.pick(&[1usize, 1, 2, 3, 32]);
+    let max_active = if prof == SProfile::Flush { 32 } else { *r.pick(&[1usize, 1, 2, 3, 32]) };
     let max_total = *r.pick(&[1usize, 2, 4, 4096]).max(&max_active);
     let scfg_ep = ep_cfg(&mut r, prof);
     let scfg = server::Config { max_total_connections: max_total, max_active_connections: max_active, enable_handshake_errors: r.chance(1, 2), endpoint_config: scfg_ep.clone() };
@@ -82,25 +88,25 @@ pub fn run_sess(tr: &mut Trace, run: u64, seed: u64, prof: SProfile) -> SessStat
             "max_packet_size": c.max_packet_size.min(2_000_000_000), "max_receive_alloc": c.max_receive_alloc.min(2_000_000_000)}));
         s.add_slot(c);
     }
-    let nraw = if prof == SProfile::Amp { r.range(1, 3) as usize } else if r.chance(1, 4) { 1 } else { 0 };
+    let nraw = if prof == SProfile::Amp { r.range(1, 3) as usize } else if prof != SProfile::Flush && r.chance(1, 4) { 1 } else { 0 };
     for _ in 0..nraw {
         s.add_raw();
     }
     let silent = prof == SProfile::Idle && r.chance(2, 3);
     // who submits packets: 0 both, 1 clients only, 2 server only (a pure receiver only ever sees ack / sync frames)
     let pattern = if prof == SProfile::Timeout || prof == SProfile::Life { r.below(3) } else { 0 }; // the applications never submit anything
-    let lossfree = (r.chance(1, 3) && prof != SProfile::Amp) || prof == SProfile::Idle;
-    let p_drop: u64 = if lossfree { 0 } else { *r.pick(&[0u64, 10, 30, 60]) };
+    let lossfree = (r.chance(1, 3) && prof != SProfile::Amp && prof != SProfile::Flush) || (prof == SProfile::Flush && r.chance(1, 6)) || prof == SProfile::Idle;
+    let p_drop: u64 = if lossfree { 0 } else if prof == SProfile::Flush { *r.pick(&[10u64, 20, 40]) } else { *r.pick(&[0u64, 10, 30, 60]) };
     let p_dup: u64 = if lossfree { 0 } else { *r.pick(&[0u64, 10, 30]) };
     let p_forge: u64 = if lossfree || prof == SProfile::Flush { 0 } else { match prof { SProfile::Handshake => *r.pick(&[0u64, 10, 30]), SProfile::Amp => 80, _ => *r.pick(&[0u64, 0, 5]) } };
     let p_replay: u64 = if lossfree || prof == SProfile::Flush { 0 } else { *r.pick(&[0u64, 5, 20]) };
-    let latency = if prof == SProfile::Idle { *r.pick(&[0u64, 10, 100]) } else { *r.pick(&[0u64, 0, 10, 100, 700]) };
-    let jitter = if lossfree { 0 } else { *r.pick(&[0u64, 0, 50, 3000]) };
-    let cadence = if prof == SProfile::Idle { *r.pick(&[10u64, 20, 100]) } else { *r.pick(&[10u64, 20, 100, 500, 1000]) };
+    let latency = if prof == SProfile::Idle || prof == SProfile::Flush { *r.pick(&[0u64, 10, 100]) } else { *r.pick(&[0u64, 0, 10, 100, 700]) };
+    let jitter = if lossfree { 0 } else if prof == SProfile::Flush { *r.pick(&[0u64, 0, 50]) } else { *r.pick(&[0u64, 0, 50, 3000]) };
+    let cadence = if prof == SProfile::Idle || prof == SProfile::Flush { *r.pick(&[10u64, 20, 100]) } else { *r.pick(&[10u64, 20, 100, 500, 1000]) };
     // steady: loss-free, evenly and frequently stepped (the premise of the keep-alive clause of C10)
     // and every time-out is well above the effective keep-alive period max(interval, 2 s, RTO)
     let steady = prof == SProfile::Idle;
-    let rounds = match prof { SProfile::Timeout => r.range(50, 400), SProfile::Idle => r.range(3000, 40000), _ => r.range(30, 250) };
+    let rounds = match prof { SProfile::Timeout => r.range(50, 400), SProfile::Idle => r.range(3000, 40000), SProfile::Flush => r.range(200, 450), _ => r.range(30, 250) };
 
     tr.line(json!({"ev": "Reset", "run": run, "seed": seed as i64 & 0x3FFFFFFF, "driver": "sess-random", "profile": match prof {
         SProfile::Handshake => "handshake", SProfile::Life => "life", SProfile::Timeout => "timeout", SProfile::Amp => "amp", SProfile::Idle => "idle", SProfile::Flush => "flush" },
@@ -110,12 +116,19 @@ pub fn run_sess(tr: &mut Trace, run: u64, seed: u64, prof: SProfile) -> SessStat
         "clients": ccfgs, "latency": latency, "cadence": cadence}));
 
     // schedule of connect times
-    let mut connect_at: Vec<u64> = (0..nclients).map(|_| if r.chance(1, 2) { 0 } else { r.below(rounds / 2 + 1) }).collect();
+    let mut connect_at: Vec<u64> = (0..nclients).map(|_| if r.chance(1, 2) { 0 } else if prof == SProfile::Flush { r.below(6) } else { r.below(rounds / 2 + 1) }).collect();
     let mut blackout: Vec<(u64, u64, usize)> = Vec::new(); // (t0, t1, slot)
-    if !lossfree && r.chance(1, 2) && nclients > 0 {
+    if !lossfree && r.chance(1, 2) && nclients > 0 && prof != SProfile::Flush {
         let t0 = r.below(rounds * cadence);
         blackout.push((t0, t0 + *r.pick(&[2500u64, 8000, 25000, 60000]), r.below(nclients as u64) as usize));
     }
+    // flush profile: per connection one side is the closer; after a warm-up with traffic in both directions it submits a
+    // batch of Reliable / Persistent packets and calls disconnect() once; it submits nothing afterwards, and the other
+    // side does not disconnect (in a quarter of the runs it does, later)
+    let flush_at: Vec<u64> = (0..nclients).map(|_| r.range(8, 50)).collect();
+    let closer_is_server: Vec<bool> = (0..nclients).map(|_| r.chance(1, 2)).collect();
+    let peer_closes_at: Vec<u64> = (0..nclients).map(|_| if r.chance(1, 4) { r.range(4, rounds) } else { u64::MAX }).collect();
+    let mut flushed: Vec<bool> = vec![false; nclients];
     let mut archive: Vec<(usize, bool, Vec<u8>)> = Vec::new(); // handshake frames seen (slot, to_server, bytes)
     let mut assigned = 0usize; // held[..assigned] already have a fate
 
@@ -153,18 +166,23 @@ pub fn run_sess(tr: &mut Trace, run: u64, seed: u64, prof: SProfile) -> SessStat
             if s.slots[i].client.is_none() {
                 continue;
             }
-            if prof != SProfile::Amp && !silent && r.chance(if prof == SProfile::Idle { 1 } else { 30 }, if prof == SProfile::Idle { 500 } else { 100 }) {
+            // (flush profile: light traffic, so that the closer's queue can drain within the run)
+            if prof != SProfile::Amp && !silent && r.chance(match prof { SProfile::Idle => 1, SProfile::Flush => 8, _ => 30 }, if prof == SProfile::Idle { 500 } else { 100 }) {
                 let n = r.range(1, 3);
                 for _ in 0..n {
                     let from_server = match pattern { 1 => false, 2 => true, _ => r.chance(1, 2) };
+                    if prof == SProfile::Flush && flushed[i] && from_server == closer_is_server[i] {
+                        continue;
+                    }
                     let maxp = s.slots[i].cfg.max_packet_size.min(scfg_ep.max_packet_size).min(20000);
-                    let len = (*r.pick(&[4usize, 50, 1000, 1448, 1449, 5000, 20000])).min(maxp);
+                    let len = (if prof == SProfile::Flush { *r.pick(&[4usize, 50, 1000, 1449, 3000]) } else { *r.pick(&[4usize, 50, 1000, 1448, 1449, 5000, 20000]) }).min(maxp);
                     let mode = *r.pick(&[SendMode::TimeSensitive, SendMode::Unreliable, SendMode::Persistent, SendMode::Reliable, SendMode::Reliable]);
                     s.app_send(tr, from_server, i, r.below(4) as usize, mode, len);
                 }
             }
-            if prof == SProfile::Flush && round >= 3 && r.chance(1, 6) {
-                let from_server = r.chance(1, 2);
+            if prof == SProfile::Flush && !flushed[i] && round >= flush_at[i] && s.slots[i].client.as_ref().map_or(false, |c| c.is_active()) {
+                flushed[i] = true;
+                let from_server = closer_is_server[i];
                 let n = r.range(1, 5);
                 for _ in 0..n {
                     let maxp = s.slots[i].cfg.max_packet_size.min(scfg_ep.max_packet_size);
@@ -172,6 +190,9 @@ pub fn run_sess(tr: &mut Trace, run: u64, seed: u64, prof: SProfile) -> SessStat
                     s.app_send(tr, from_server, i, r.below(3) as usize, if r.chance(3, 4) { SendMode::Reliable } else { SendMode::Persistent }, len);
                 }
                 s.app_disconnect(tr, from_server, i, false);
+            }
+            if prof == SProfile::Flush && round == peer_closes_at[i] {
+                s.app_disconnect(tr, !closer_is_server[i], i, r.chance(1, 3));
             }
             let pd: u64 = match prof { SProfile::Life => 3, SProfile::Handshake => 1, _ => 0 };
             if r.chance(pd, 100) {
